@@ -71,7 +71,7 @@ class C11Engine(Engine):
                    'the namespace doc is placed in exactly one file of the namespace',
                    'a byte difference is reported only if it persists across repeated in-process runs '
                    'with perturbed heaps (address-order instability belongs to C12)']
-    expected_probes = ['doc_law_checked', 'channel_argv', 'channel_recursive', 'channel_stdin', 'multi_file_namespace',
+    expected_probes = ['eol_crlf', 'eol_mixed', 'doc_law_checked', 'channel_argv', 'channel_recursive', 'channel_stdin', 'multi_file_namespace',
                        'noise_lines', 'continuation_lines', 'error_model', 'backend_bytes_compared',
                        'listing_order_differs']
 
@@ -213,6 +213,8 @@ class C11Engine(Engine):
                 bump(res['probes'], 'multi_file_namespace')
             if sch.shape['noise']:
                 bump(res['probes'], 'noise_lines', sch.shape['noise'])
+            if sch.shape.get('eol', 'lf') != 'lf':
+                bump(res['probes'], 'eol_' + sch.shape['eol'])
             if sch.shape['multiline']:
                 bump(res['probes'], 'continuation_lines')
             tag = 's%d' % si
